@@ -35,7 +35,7 @@ if ROUND == "r4":
     REBASED = {k: f"/tmp/rebased/{k.replace('-mutant', '-r4-mutant')}/patch.diff" for k in ("C01-mutant-a", "C01-mutant-b", "C11-mutant-b", "C16-mutant-b")}
     EXTRA = json.load(open(os.environ["SEED_EXTRA"])) if os.environ.get("SEED_EXTRA") else {}
 
-if ROUND == "r5":
+if ROUND in ("r5", "r6", "r7"):
     PKG, RACE_DEMO, REBASED = {}, set(), {}
     EXTRA = json.load(open(os.environ["SEED_EXTRA"])) if os.environ.get("SEED_EXTRA") else {}
 
@@ -65,7 +65,8 @@ def main():
             # the delivered patch, unless a later fix commit made it stop applying:
             # then the same edit re-made on the fixed code (kept in /verif/seeded)
             patch = None
-            for cand in (f"{d}/patch.diff", REBASED.get(key), f"{out_dir}/patch.diff"):
+            generic = f"/tmp/rebased/{os.path.basename(out_dir)}/patch.diff"
+            for cand in (f"{d}/patch.diff", REBASED.get(key), generic, f"{out_dir}/patch.diff"):
                 if cand and os.path.exists(cand) and sh(f"git apply --check {cand}", cwd=REPO)[0] == 0:
                     patch = cand; break
             if patch is None:
